@@ -522,8 +522,10 @@ func VerifRun() {
 	vrt.Assert("L3: at most one decision", decides <= 1)
 	for a := 0; a < len(log); a++ {
 		x := log[a]
-		if x.typ == MsgPrepare || x.typ == MsgCommit || x.typ == MsgPrePrepare {
-			vrt.Assert("broadcast values are never the zero value", x.val != 0)
+		// A COMMIT for the zero value is not excluded locally: it follows a quorum of delivered PREPAREs (L2), and no honest
+		// member sends PREPARE for zero (this assertion), so it needs more than f Byzantine senders.
+		if x.typ == MsgPrepare || x.typ == MsgPrePrepare {
+			vrt.Assert("PRE-PREPARE and PREPARE broadcasts are never for the zero value", x.val != 0)
 		}
 		if x.typ == MsgRoundChange {
 			vrt.Assert("L10: ROUND-CHANGE is for a round >= 2", x.round >= 2)
